@@ -9,7 +9,9 @@ FUNCS = ["emboss::prelude::{UInt,Int,Bcd,Flag,Float}View::{CouldWriteValue,TryTo
 
 def main(args):
     def keep(n):
-        return not viewcheck.SAFETY.search(n)
+        # functional obligations, plus the runtime's own consistency checks (EMBOSS_CHECK asserts): an operation that
+        # aborts on a valid input does not deliver what the property promises (the other safety obligations belong to C04)
+        return not viewcheck.SAFETY.search(n) or ".trap:assert(" in n
     from contracts import cpp_views, write_inference
     from vlib import pool, core
     if args.replay:
